@@ -29,20 +29,15 @@ def ofBool (b : Bool) : Nat := if b then 1 else 0
 
 /-- initial tagged dataset: record cell `(id, j)` = `id*8 + j`, weight of `id` = `1000 + id`,
 feature names `f<j>`, target names `t<c>` -/
-def initDS (n p t : Nat) (ix1 w fn tn cnt : Bool) (y : List (List Nat)) : D :=
+def initDS (n p t : Nat) (ix1 : Bool) (w : Nat) (fn tn cnt : Bool) (y : List (List Nat)) : D :=
   { p := p, t := t, ix1 := ix1,
     recs := (List.range n).map fun id => (List.range p).map fun j => id * 8 + j,
     tgts := y,
-    weights := if w then (List.range n).map (1000 + ·) else [],
+    -- `w`: 0 none, 1 one per sample, 2 one too many, 3 one too few (`with_weights` checks nothing)
+    weights := (List.range (match w with | 0 => 0 | 1 => n | 2 => n + 1 | _ => n - 1)).map (1000 + ·),
     fnames := if fn then (List.range p).map (s!"f{·}") else [],
     tnames := if tn then (List.range t).map (s!"t{·}") else [],
     counts := if cnt then some (labelCount t y) else none }
-
-/-- one-vs-all output with its boolean labels written as codes 0/1 -/
-def boolDS (d : DS Nat Bool Nat) : D :=
-  { mapTargets ofBool d with
-    counts := d.counts.map fun (cs : List (List (Bool × Nat))) =>
-      cs.map fun m => m.map fun (bc : Bool × Nat) => (ofBool bc.1, bc.2) }
 
 def argBool (f : List String) (k : String) : Option Bool :=
   match argNat f k with
@@ -50,140 +45,156 @@ def argBool (f : List String) (k : String) : Option Bool :=
   | some 1 => some true
   | _ => none
 
-/-- what a step of a history answers -/
-inductive StepRes where
+/-- what one token of a history asks for -/
+inductive Req where
+  /-- ill-formed, or a call the Rust type system does not admit on this dataset -/
   | bad
-  | panic
-  /-- the request lies outside what the property promises (ratio outside [0,1], bootstrap from
-  nothing, documented panics): not compared, the history ends -/
+  /-- a ratio outside `[0, 1]` (an `Op` only shows the split point): nothing is promised -/
   | unpromised
-  | ok (txt : String) (outs : List D)
+  /-- one of the dataset operations: answered by `apply`, guarded by `guardB` -/
+  | op (o : Op Nat)
+  /-- an accessor that returns no dataset (`sample_iter`, `weight_for`, `label_frequencies*`): answered
+  by its model function, the history goes on with the same dataset; `none` = it panics -/
+  | observe (txt : Option String)
 
 def inUnit (r : Float32) : Bool := decide ((0 : Float32) ≤ r) && decide (r ≤ (1 : Float32))
 
 def dump (outs : List D) : String := "+".intercalate (outs.map showDS)
 
-def wrap : Option (List D) → StepRes
-  | none => .panic
-  | some outs => .ok (dump outs) outs
-
 def showFreqs (m : List (Nat × Nat)) : String :=
   if m.isEmpty then "-" else ",".intercalate ((sortCounts m).map fun (l, c) => s!"{l}*{c}")
 
-/-- one step: the response text of the step and the datasets it returned -/
-def step (name : String) (f : List String) (ds : D) : StepRes :=
-  let r : Option StepRes := do
+/-- the request of one token, read against the current dataset (the split point is
+`ceilRatio` of *its* sample count) -/
+def parse (name : String) (f : List String) (ds : D) : Req :=
+  let r : Option Req := do
     match name with
     | "splitV" =>
       let r ← (arg f "r").bind parseF32
-      if !inUnit r then pure .unpromised
-      else pure (wrap ((splitView (ceilRatio ds.n r) ds).map fun (a, b) => [a, b]))
+      pure (if inUnit r then .op (.splitView (ceilRatio ds.n r)) else .unpromised)
     | "splitO" =>
       let r ← (arg f "r").bind parseF32
       let std ← argBool f "std"
+      -- only `Dataset` (plain array targets) has the owned split
       if ds.counted then none
-      else if !inUnit r || !std then pure .unpromised
-      else pure (wrap ((splitOwned std (ceilRatio ds.n r) ds).map fun (a, b) => [a, b]))
+      else pure (if inUnit r then .op (.splitOwned std (ceilRatio ds.n r)) else .unpromised)
     | "shuffle" =>
       let idx ← argNats f "idx"
-      pure (wrap ((shuffle idx ds).map ([·])))
+      pure (.op (.shuffle idx))
     | "boot" =>
       let ns ← argNat f "ns"; let nf ← argNat f "nf"
       let idx ← argNats f "idx"; let fidx ← argNats f "fidx"
-      if (0 < ns ∧ ds.n = 0) ∨ (0 < nf ∧ ds.p = 0) then pure .unpromised
-      else match bootstrap ns nf idx fidx ds with
-        | none => pure .panic
-        | some d => if idx.length = ns ∧ fidx.length = nf then pure (wrap (some [d])) else none
+      -- the index vectors are the RNG's draws: `ns` resp. `nf` of them (none when the source is empty)
+      if (idx.length = ns ∧ fidx.length = nf) ∨ !(guardB (.bootstrap ns nf idx fidx) ds) then
+        pure (.op (.bootstrap ns nf idx fidx)) else none
     | "bootS" =>
       let ns ← argNat f "ns"; let idx ← argNats f "idx"
-      if 0 < ns ∧ ds.n = 0 then pure .unpromised
-      else match bootstrapSamples ns idx ds with
-        | none => pure .panic
-        | some d => if idx.length = ns then pure (wrap (some [d])) else none
+      if idx.length = ns ∨ !(guardB (.bootstrapSamples ns idx) ds) then pure (.op (.bootstrapSamples ns idx)) else none
     | "bootF" =>
       let nf ← argNat f "nf"; let fidx ← argNats f "fidx"
-      if 0 < nf ∧ ds.p = 0 then pure .unpromised
-      else match bootstrapFeatures nf fidx ds with
-        | none => pure .panic
-        | some d => if fidx.length = nf then pure (wrap (some [d])) else none
+      if fidx.length = nf ∨ !(guardB (.bootstrapFeatures nf fidx) ds) then pure (.op (.bootstrapFeatures nf fidx)) else none
     | "withLabels" =>
       let labs ← argNats f "labs"
-      pure (wrap ((withLabels labs ds).map ([·])))
-    | "oneVsAll" =>
-      if !ds.ix1 then none
-      else
-        let outs := (oneVsAll ds).map fun (l, d) =>
-          (l, boolDS d)
-        let sorted := (outs.toArray.qsort (fun a b => a.1 < b.1)).toList
-        pure (.ok ("+".intercalate (sorted.map fun (l, d) => s!"{l}>{showDS d}")) (sorted.map (·.2)))
+      pure (.op (.withLabels labs))
+    | "oneVsAll" => if !ds.ix1 then none else pure (.op .oneVsAll)
     | "map" =>
       let tab ← argNats f "tab"
-      pure (wrap (some [mapTargets (fun c => tab.getD c c) ds]))
-    | "view" => pure (wrap (some [view ds]))
-    | "toOwned" => pure (wrap (some [toOwned ds]))
-    | "intoSingle" =>
-      if ds.ix1 ∨ ds.counted then none
-      else if ds.t ≠ 1 then pure .unpromised
-      else pure (wrap ((intoSingleTarget ds).map ([·])))
-    | "sampleIter" =>
-      match sampleIter ds with
-      | none => pure .panic
-      | some prs =>
-        let s := if prs.isEmpty then "-" else
-          ";".intercalate (prs.map fun (r, g) => s!"{showList toString r}>{showList toString g}")
-        pure (.ok s [ds])
-    | "featureIter" => pure (wrap (featureIter ds))
-    | "targetIter" => pure (wrap (targetIter ds))
+      pure (.op (.mapTargets fun c => tab.getD c c))
+    | "view" => pure (.op .view)
+    | "toOwned" => pure (.op .toOwned)
+    | "intoSingle" => if ds.ix1 ∨ ds.counted then none else pure (.op .intoSingleTarget)
+    | "featureIter" => pure (.op .featureIter)
+    | "targetIter" => pure (.op .targetIter)
     | "chunks" =>
       let size ← argNat f "size"
-      if size = 0 then pure .unpromised else pure (wrap (sampleChunks size ds))
+      pure (.op (.sampleChunks size))
+    | "sampleIter" =>
+      pure (.observe ((sampleIter ds).map fun prs =>
+        if prs.isEmpty then "-" else
+          ";".intercalate (prs.map fun (r, g) => s!"{showList toString r}>{showList toString g}")))
     | "weightFor" =>
-      -- `weight_for(i)` for `i = 0 .. n+1` (two positions past the end)
-      pure (.ok (showList toString ((List.range (ds.n + 2)).map (weightFor 1 ds))) [ds])
+      -- `weight_for(i)` for every sample `i < n`
+      pure (.observe (some (showList toString ((List.range ds.n).map (weightFor 1 ds)))))
     | "labelFreq" =>
       let mask ← argNats f "mask"
-      pure (.ok (showFreqs (labelFreqsWithMask 0 1 (mask.map (· != 0)) ds)) [ds])
+      -- one mask entry per sample, or none at all (`label_frequencies()`)
+      if mask.length ≠ 0 ∧ mask.length ≠ ds.n then none
+      else pure (.observe (some (showFreqs (labelFreqsWithMask 0 1 (mask.map (· != 0)) ds))))
     | _ => none
   r.getD .bad
 
-/-- runs the steps; the response lists every step's outputs; a panic ends the history -/
-def runSteps : List String → D → List String → Option (List String)
-  | [], _, acc => some acc.reverse
-  | tok :: rest, ds, acc =>
+/-- the text of a step: the dumps of the datasets `apply` returned, in its order; for `one_vs_all`
+each with its label and listed by label code (the order of the views is not part of the property;
+`pick` still counts in `apply`'s order, the order of `labelsOf`) -/
+def showOuts (o : Op Nat) (ds : D) (outs : List D) : String :=
+  match o with
+  | .oneVsAll =>
+    let prs := (labelsOf ds).zip outs
+    let sorted := (prs.toArray.qsort (fun a b => a.1 < b.1)).toList
+    "+".intercalate (sorted.map fun (l, d) => s!"{l}>{showDS d}")
+  | _ => dump outs
+
+structure Run where
+  /-- the response tokens, newest first -/
+  acc : List String
+  /-- the operations that returned, with the pick, in order, newest first -/
+  ops : List (Op Nat × Nat)
+  /-- the dumps of what they returned, newest first -/
+  dumps : List String
+  /-- where the history stands -/
+  cur : D
+
+/-- runs the tokens: every dataset operation is `guardB` then `apply`; a panic or a request outside
+the guard ends the history -/
+def runSteps : List String → Run → Option Run
+  | [], st => some st
+  | tok :: rest, st =>
     match tok.splitOn ":" with
     | [] => none
     | name :: f =>
-      match step name f ds with
+      match parse name f st.cur with
       | .bad => none
-      | .panic => some ((s!"{name}:panic") :: acc).reverse
-      | .unpromised => some ((s!"{name}:unpromised") :: acc).reverse
-      | .ok txt outs =>
-        match argNat f "pick" with
-        | none => none
-        | some k =>
-          let acc := s!"{name}:{txt}" :: acc
-          match outs[k]? with
-          | none => if rest.isEmpty ∧ outs.isEmpty then some acc.reverse else none
-          | some d => runSteps rest d acc
+      | .unpromised => some { st with acc := s!"{name}:unpromised" :: st.acc }
+      | .observe none => some { st with acc := s!"{name}:panic" :: st.acc }
+      | .observe (some txt) => runSteps rest { st with acc := s!"{name}:{txt}" :: st.acc }
+      | .op o =>
+        if !(guardB o st.cur) then some { st with acc := s!"{name}:unpromised" :: st.acc }
+        else match apply ofBool o st.cur with
+          | none => some { st with acc := s!"{name}:panic" :: st.acc }
+          | some outs =>
+            match argNat f "pick" with
+            | none => none
+            | some k =>
+              let acc := s!"{name}:{showOuts o st.cur outs}" :: st.acc
+              match outs[k]? with
+              | none => if rest.isEmpty ∧ outs.isEmpty then some { st with acc := acc } else none
+              | some d => runSteps rest { acc := acc, ops := (o, k) :: st.ops, dumps := dump outs :: st.dumps, cur := d }
 
 def handleSeq (toks : List String) : Option String := do
   let n ← argNat toks "n"; let p ← argNat toks "p"; let t ← argNat toks "t"
-  let ix1 ← argBool toks "ix1"; let w ← argBool toks "w"; let fn ← argBool toks "fn"
+  let ix1 ← argBool toks "ix1"; let w ← argNat toks "w"; let fn ← argBool toks "fn"
   let tn ← argBool toks "tn"; let cnt ← argBool toks "cnt"
   let y ← argNats2 toks "y"
   let ops ← arg toks "ops"
-  if y.length ≠ n ∨ y.any (·.length ≠ t) ∨ (ix1 ∧ t ≠ 1) then none
+  if y.length ≠ n ∨ y.any (·.length ≠ t) ∨ (ix1 ∧ t ≠ 1) ∨ w > 3 then none
   else
     let ds := initDS n p t ix1 w fn tn cnt y
-    let outs ← runSteps (splitOn' ops "/") ds []
-    pure ("ok init:" ++ showDS ds ++ (if outs.isEmpty then "" else " " ++ " ".intercalate outs))
+    let st ← runSteps (splitOn' ops "/") { acc := [], ops := [], dumps := [], cur := ds }
+    -- the steps that returned are a history in the sense of the theorems: `runSeq` (through
+    -- `runTrace`, which keeps the intermediate results) must retrace them
+    let tr := runTrace ofBool st.ops.reverse ds
+    if tr.1.map dump ≠ st.dumps.reverse ∨ tr.2.map showDS ≠ some (showDS st.cur) then pure "runSeq-mismatch"
+    else
+      let outs := st.acc.reverse
+      pure ("ok init:" ++ showDS ds ++ (if outs.isEmpty then "" else " " ++ " ".intercalate outs))
 
 /-- `ceil n=<n> r=<f32 bits>`: the split point -/
 def handleCeil (toks : List String) : Option String := do
   let n ← argNat toks "n"
   let r ← (arg toks "r").bind parseF32
-  -- `split_at` panics when the split point lies beyond the last sample
-  pure (if ceilRatio n r ≤ n then s!"ok {ceilRatio n r}" else "panic")
+  -- a ratio outside `[0, 1]` is outside the property; `split_at` panics when the split point lies
+  -- beyond the last sample (`n as f32` may round up)
+  pure (if !inUnit r then "unpromised" else if ceilRatio n r ≤ n then s!"ok {ceilRatio n r}" else "panic")
 
 def handle (toks : List String) : String :=
   let r := match toks with
